@@ -378,12 +378,13 @@ func (c *SimpleBreaker) Do(f func() error) (bool, error) {
 		return status.Closed, status.Error
 	}
 	var err error
-	if status.Closed || status.Disabled {
+	attempted := status.Closed || status.Disabled
+	if attempted {
 		if f != nil {
 			err = f()
 		}
 	}
-	return status.Closed, err
+	return attempted, err
 }
 
 // GoroutineBreaker makes a SimpleBreaker based on goroutine count.
